@@ -68,7 +68,7 @@ Proof.
   destruct (ph s) eqn:P.
   { (* idle: the batch may be dispatched *)
     assert (P1 : ph s1 = Idle) by exact P.
-    pose proof (check_tsum _ _ _ _ P1 E) as [F A I K W2 PR N S].
+    pose proof (check_tsum _ _ _ _ (BK : broken s1 = false) P1 E) as [F A I K W2 PR N S].
     constructor; auto.
     + eapply fires_eq_out; [|exact F]. reflexivity.
     + intros y H. apply I in H. simpl in H. rewrite NR. apply in_app_or in H as [H|H]; auto.
@@ -113,7 +113,7 @@ Proof.
   intros s s' o [W ST PO PL BK] H. unfold step, core in H. destruct (looper s); cbn [apply_epi] in H.
   - destruct (try_send_batch c s) as [s2 o2] eqn:E. inv H. simpl.
     destruct (ph s) eqn:P.
-    { pose proof (try_tsum _ _ _ _ P E) as T. apply ssum_of_stepsum; auto.
+    { pose proof (try_tsum _ _ _ _ BK P E) as T. apply ssum_of_stepsum; auto.
       * apply tsum_stepsum; auto.
       * intros ST2. rewrite (t_stop _ _ _ T) in ST2.
         destruct (tsum_idle_stop c s s' o P ST2 (or_introl E)) as [-> _]. exact P.
@@ -154,7 +154,8 @@ Proof.
       destruct (xl_facts _ _ _ X1 L1) as (F1 & K1 & NP1 & AF1 & P1 & O1).
       assert (ST1 : stopping s1 = false) by (destruct K1; congruence).
       pose proof (p_wf _ PR) as W. unfold phase_wf in W. rewrite P in W.
-      destruct (lookups_progress_sum _ _ _ _ _ _ E2 ST1) as [BS AF2]; [congruence|].
+      assert (BK1 : broken s1 = false) by (destruct K1; rewrite (p_ok _ PR) in *; congruence).
+      destruct (lookups_progress_sum _ _ _ _ _ _ E2 ST1 BK1) as [BS AF2]; [congruence|].
       eapply (batch_ssum c reqs s _ s2 (o1 ++ o2) done s' o3); eauto.
       - eapply bsum_pre; eauto.
       - rewrite P; reflexivity.
@@ -177,12 +178,13 @@ Proof.
       destruct (xl_facts _ _ _ X1 L1) as (F1 & K1 & NP1 & AF1 & P1 & O1).
       assert (ST1 : stopping s1 = false) by (destruct K1; congruence).
       pose proof (p_wf _ PR) as W. unfold phase_wf in W. rewrite P in W.
-      destruct (lookups_progress_sum _ _ _ _ _ _ E2 ST1) as [BS AF2]; [congruence|].
+      assert (BK1 : broken s1 = false) by (destruct K1; rewrite (p_ok _ PR) in *; congruence).
+      destruct (lookups_progress_sum _ _ _ _ _ _ E2 ST1 BK1) as [BS AF2]; [congruence|].
       eapply (batch_ssum c reqs s _ s2 (o1 ++ o2) done s' o3); eauto.
       - eapply bsum_pre; eauto.
       - rewrite P; reflexivity.
       - apply all_fail_justified; auto with prod. }
-  4:{ destruct (tid' =? tid); cbn [apply_epi] in H; inv H.
+  4:{ rewrite (p_ok _ PR) in H. destruct (tid' =? tid); cbn [apply_epi] in H; inv H.
       - pose proof (p_wf _ PR) as W. unfold phase_wf in W. rewrite P in W.
         assert (NI : ph s <> Idle) by (rewrite P; discriminate).
         pose proof (not_stopping _ PR NI) as ST.
@@ -206,7 +208,7 @@ Proof.
                   bsum reqs s s2 o2 done /\ all_fail o2).
       { intros a. destruct (send_requests (set_client s a (cache s)) reqs res) as [[s2 o2] done] eqn:E.
         exists s2, o2, done. split; auto.
-        destruct (send_requests_sum _ _ _ _ _ _ E ST W) as [BS AF]. split; auto.
+        destruct (send_requests_sum _ _ _ _ _ _ E ST (p_ok _ PR) W) as [BS AF]. split; auto.
         change o2 with ([] ++ o2). eapply bsum_pre; [| | |exact BS].
         - constructor; reflexivity.
         - apply fires_same; reflexivity.
@@ -290,9 +292,15 @@ Proof.
 Qed.
 
 (* ------------------------------------------------------------------ every event *)
-Theorem step_ssum : forall s e s' o, pre s -> step c s e = (s', o) -> ssum c s e s' o.
+Lemma broken_ssum : forall s s' o, pre s -> step c s (EBroken false) = (s', o) -> ssum c s (EBroken false) s' o.
 Proof.
-  intros s e s' o PR H. destruct e.
+  intros s s' o [W ST PO PL BK] H. unfold step, core in H. cbn [apply_epi] in H. inv H.
+  apply ssum_of_stepsum; auto; [apply stepsum_same; auto|apply all_fail_justified, all_fail_nil].
+Qed.
+
+Theorem step_ssum : forall s e s' o, pre s -> honest_ev e = true -> step c s e = (s', o) -> ssum c s e s' o.
+Proof.
+  intros s e s' o PR HE H. destruct e.
   - destruct ((cnt <? 1) || (bytes <? 0)) eqn:V.
     + unfold step, core in H. rewrite V in H. cbn [apply_epi] in H. inv H.
       apply send_bad_ssum; auto. simpl. rewrite V; auto.
@@ -309,6 +317,8 @@ Proof.
   - apply timer_ssum; auto.
   - apply version_ssum; auto.
   - apply result_ssum; auto.
+  - discriminate.
+  - destruct b; [discriminate|]. apply broken_ssum; auto.
   - apply stop_ssum; auto.
 Qed.
 End Steps.
